@@ -4,6 +4,7 @@ import random
 from fractions import Fraction
 
 from vmon import gens as G
+from vmon.gens import THOROUGH_SCALE as TS
 from vmon import oracles as O
 
 PID = "C13"
@@ -382,7 +383,7 @@ def generate(tier, seed):
     if thorough:
         yield from _all_for(WIT[:5], rng, True)
         yield from _all_for([r for r in WIT if r[0] == "b"], rng, True)
-    n_tab = 120 if thorough else 6
+    n_tab = 120 * TS if thorough else 6
     for i in range(n_tab):
         rows = _rand_table(rng, rng.randint(3, 30))
         items = list(_all_for(rows, rng, i < 2))
